@@ -1,4 +1,6 @@
--- Root of the `Anko` library: model, regenerated facts, proofs and property theorems.
+-- Root of the `Anko` library: model and regenerated facts. The proof and property modules (Anko.Proofs.*, Anko.Props.Cxx) are
+-- built as separate targets (setup.sh, ./check): several of them unfold the same model functions, and the auxiliary
+-- matcher lemmas Lean generates for that clash when two such modules are imported into one file.
 import Anko.Model.WalkTypes
 import Anko.Model.Walk
 import Anko.Model.Sexp
@@ -20,21 +22,3 @@ import Anko.Gen.Cache
 import Anko.Gen.Cli
 import Anko.Gen.Packages
 import Anko.Gen.AstWrites
-import Anko.Proofs.Walk
-import Anko.Proofs.Equal
-import Anko.Proofs.EvalCurBase
-import Anko.Proofs.EvalCur
-import Anko.Proofs.EvalSig
-import Anko.Proofs.EvalPoll
-import Anko.Proofs.EvalCall
-import Anko.Props.C02
-import Anko.Props.C04
-import Anko.Props.C05
-import Anko.Props.C06
-import Anko.Props.C07
-import Anko.Props.C08
-import Anko.Props.C09
-import Anko.Props.C14
-import Anko.Props.C17
-import Anko.Props.C18
-import Anko.Props.C19
